@@ -81,3 +81,39 @@ def rf28(run):
                                   '[%s]' % (F.src(c['c'][0]), F.src(E)), line=a['l'])
                 break
     return len(paths)
+
+
+def rf29(run):
+    """instructions created by the link-time transformations after operand simplification are themselves in simplified form"""
+    rule = 'RF29'
+    run.rule(rule, 'link-time transformations (simplify_func, process_inlines and their helpers) create memory operands only in the '
+                   'simplified form the engines rely on: displacement 0, no index register (the interpreter pushes only the base '
+                   'register of a memory operand; the check is an assertion compiled out under NDEBUG)')
+    tu = run.tu('mir')
+    entries = [e for e in ('simplify_func', 'process_inlines', 'make_one_ret', 'simplify_op', 'simplify_insn') if e in tu.funcs]
+    fs = tu.reachable(entries)
+    # only functions of mir.c proper (not the reader/scanner, which build unsimplified user code)
+    n = 0
+    for fn in sorted(fs):
+        f = tu.funcs[fn]
+        if fn in ('MIR_new_mem_op', 'MIR_new_alias_mem_op', '_MIR_new_var_mem_op', 'new_mem_op'):
+            continue
+        for c in f.walk():
+            if c['k'] == 'CallExpr' and c.get('callee') in ('MIR_new_mem_op', 'MIR_new_alias_mem_op'):
+                a = F.call_args(c)
+                disp, index = F.const_value(F.strip(a[2])), F.const_value(F.strip(a[4]))
+                ok = disp == 0 and index == 0
+                n += 1
+                run.ob(rule, (fn, c['l']), ok, {'site': '%s:%d %s' % (f.relfile(), c['l'], fn), 'operand': F.src(c)[:80],
+                                                'disp': F.src(a[2]), 'index': F.src(a[4])})
+                if not ok:
+                    run.violation(rule, f, 'memory operand %s' % F.src(c)[:60],
+                                  '%s creates a memory operand with displacement [%s] / index [%s] after operand simplification: the '
+                                  'interpreter addresses memory by the base register alone, so the access goes to the wrong address'
+                                  % (fn, F.src(a[2]), F.src(a[4])), line=c['l'])
+    # the reliance itself: push_mem uses the base register only
+    pm = tu.funcs.get('push_mem')
+    if pm is not None:
+        fields = {x['n'] for x in pm.walk() if x['k'] == 'MemberExpr' and x.get('rec') in ('MIR_mem_t', 'MIR_mem')}
+        run.ob(rule, ('interp-reliance',), True, {'fields of the memory operand the interpreter encodes': sorted(fields)})
+    return n
